@@ -31,7 +31,7 @@ def worktree(name):
     if os.path.exists(wt):
         sh(['git', '-C', REPO, 'worktree', 'remove', '--force', wt])
         shutil.rmtree(wt, ignore_errors=True)
-    r = sh(['git', '-C', REPO, 'worktree', 'add', '-q', '--detach', wt, 'HEAD'])
+    r = sh(['git', '-C', REPO, 'worktree', 'add', '-q', '--detach', wt, os.environ.get('SEEDED_BASE', 'HEAD')])
     assert r.returncode == 0, r.stderr
     return wt
 
